@@ -72,6 +72,9 @@ func fuzzFail(t *testing.T, id string, c fuzzCase, msg string) {
 
 func judgeFuzzC06(c fuzzCase) string {
 	cfg := fuzzCfgs[int(c.Sel)%len(fuzzCfgs)]
+	if est := estimate(string(c.Data), cfg); est > expansionBound {
+		return "" // a FOR bomb: resource use is C05's subject (and bounded there), not C06's
+	}
 	wd, err, pm := compile(string(c.Data), asmG(cfg))
 	if pm != "" {
 		return "CompileWarrior panicked: " + pm
